@@ -171,7 +171,8 @@ func (msg MsgInitiateTokenWithdrawal) Validate(ac address.Codec) error {
 		return sdkerrors.ErrInvalidAddress.Wrap("to address cannot be empty")
 	}
 
-	if !msg.Amount.IsValid() || !msg.Amount.IsPositive() {
+	// the withdrawal commitment on L1 carries the amount as uint64
+	if !msg.Amount.IsValid() || !msg.Amount.IsPositive() || !msg.Amount.Amount.IsUint64() {
 		return ErrInvalidAmount
 	}
 
